@@ -97,6 +97,12 @@ func genC14(r *Rng, tier string) *World {
 				if v.K == "s" && (v.S != strings.TrimSpace(v.S) || v.S == "") {
 					v.S = "x" + strings.TrimSpace(v.S)
 				}
+				if v.K == "s" && len(l.L) > 0 && r.P(0.15) {
+					v.S = Pick(r, []string{"", "  "}) // a blank element of a list with >= 2 elements is an absent element everywhere
+				}
+				if (v.K == "i" || v.K == "f" || v.K == "b") && r.P(0.15) {
+					v = map[string]Val{"i": VI(0), "f": VF(0), "b": VB(false)}[v.K] // present-but-falsy elements
+				}
 				l.L = append(l.L, v)
 				if r.P(0.25) {
 					l.L = append(l.L, v) // a repeated parameter with identical values is still a list
@@ -136,6 +142,15 @@ func genC14(r *Rng, tier string) *World {
 			fronts = append(fronts, "zenv")
 		}
 	}
+	allStr := in.K == "m" && len(in.M) > 0
+	for _, kv := range in.M {
+		if kv.V.K != "s" {
+			allStr = false
+		}
+	}
+	if allStr && fam == "flat" {
+		fronts = append(fronts, "mapstr")
+	}
 	var ops []Op
 	for _, f := range fronts {
 		op := Op{Kind: "parse", Schema: 0, Input: in, Arg: f}
@@ -164,6 +179,8 @@ func genC14(r *Rng, tier string) *World {
 			op.IO = io
 		case "zenv":
 			op.Front = "zenv"
+		case "mapstr":
+			op.Front = "mapstr"
 		}
 		op.Arg = ""
 		ops = append(ops, op)
